@@ -20,11 +20,13 @@ Record cfg := mkCfg {
   fix_cas  : bool;   (* readDisconnected moves to passive-closing by CAS (f0d1757); off = plain store *)
   fix_abort : bool;  (* read loop completes a bound call on its early exits (6d5c154) *)
   fix_dup  : bool;   (* bindReply ignores an already completed call (1db827c) *)
-  fix_acc  : bool    (* accept stores status ok before the index insert (ServeConn, Dial) or by a
+  fix_acc  : bool;   (* accept stores status ok before the index insert (ServeConn, Dial) or by a
                         compare-and-swap after it (serveListener, 6514bc6); off = index insert first,
                         then a plain store when the accepting goroutine carries on *)
+  fix_pre  : bool    (* readDisconnected cancels the pending calls before it waits for the running
+                        handlers, and once more after (33a3798); off = only after the wait *)
 }.
-Definition fixed : cfg := mkCfg true true true true true.
+Definition fixed : cfg := mkCfg true true true true true true.
 
 (* session.go: statusPreparing .. statusRedialFailed *)
 Inductive status :=
@@ -158,7 +160,8 @@ Inductive rpc :=
 | D5 (seen : status)
 | D6                             (* gate disc.presock: socket close *)
 | D8                             (* no redial: status, notify, hook *)
-| RDone.
+| RDone
+| DC (seen : status).            (* first cancel loop, before graceCtxWait (between D2 and D3) *)
 
 (* closeLocked *)
 Inductive cpc := CIdle | C0 | C1 | C2 | C3 | C4 | C5 | C6 | C7.
